@@ -159,6 +159,7 @@ func findRewrites(
 	host string,
 	qtype uint16,
 ) (rewrites []*LegacyRewrite, matched bool) {
+	hasExactAddr := false
 	for _, e := range entries {
 		if e.Domain != host && !matchDomainWildcard(host, e.Domain) {
 			continue
@@ -168,6 +169,18 @@ func findRewrites(
 		if e.matchesQType(qtype) {
 			rewrites = append(rewrites, e)
 		}
+
+		if e.Type != dns.TypeCNAME && !isWildcard(e.Domain) {
+			hasExactAddr = true
+		}
+	}
+
+	if hasExactAddr {
+		// The host is matched exactly by an address entry, which shadows the
+		// wildcard address entries even if it's for another question type.
+		rewrites = slices.DeleteFunc(rewrites, func(rw *LegacyRewrite) (ok bool) {
+			return rw.Type != dns.TypeCNAME && isWildcard(rw.Domain)
+		})
 	}
 
 	if len(rewrites) == 0 {
